@@ -5,7 +5,7 @@ import fuzzdrv, core
 VERIF = os.path.dirname(os.path.dirname(os.path.abspath(__file__)))
 C09_PAT = re.compile(r"HANG|after resize|bucket allocator|buckets, outside|custom allocator: peak|bucket level|recording bucket allocator|alloc_bucket_table|free_bucket_table|max_nr_buckets|rculfhash-mm-|_do_cds_lfht_(grow|shrink|resize)|init_table|fini_table")
 
-C09_ONLY = re.compile(r"HANG|bucket allocator|buckets, outside|custom allocator: peak|bucket level|recording bucket allocator|alloc_bucket_table|free_bucket_table|max_nr_buckets")
+C09_ONLY = re.compile(r"HANG|buckets, outside|custom allocator: peak|recording bucket allocator")   # everything else (crashes, assertion failures, content mismatches) also violates the reference-multimap property
 
 LFHT_RULE = ("libFuzzer (coverage-guided, ASan+UBSan, asserts on) mutates bytes which a structural decoder turns into a table configuration "
              "(init/min/max orders 0..10 incl. max<init and min>init, one parameter optionally not a power of two, flags 0..3, allocator in "
